@@ -319,6 +319,18 @@ def main(argv=None):
                    "--shard", f"{bc_shard}/{nshards}", "--json-out", out, "--budget", str(min(budget, 150.0))]
             log = open(os.path.join(tmpd, f"shard{bc_shard}.log"), "w")
             procs.append((bc_shard, out, log, subprocess.Popen(cmd, stdout=log, stderr=subprocess.STDOUT, env=env)))
+        # The core shard: the complete quick-tier workload (a fixed case list that is never cut short by the time budget) runs
+        # beside the time-bounded shards, so the thorough verdict never rests on how far a loaded machine got: the coverage
+        # floors are met by the core, the other shards add depth.
+        core_shard = None
+        if tier == "thorough" and os.environ.get("VERIF_CORE_SHARD", "1") == "1":
+            core_shard = "core"
+            out = os.path.join(tmpd, "shard-core.json")
+            env = dict(os.environ, VERIF_KEEP_ENV="1")
+            cmd = [sys.executable, "-X", "faulthandler", "-W", "ignore::SyntaxWarning", "-m", "vmon.cli", pid, "quick",
+                   "--shard", "0/1", "--json-out", out, "--budget", str(module_budget(mod, "quick"))]
+            log = open(os.path.join(tmpd, "shardcore.log"), "w")
+            procs.append((core_shard, out, log, subprocess.Popen(cmd, stdout=log, stderr=subprocess.STDOUT, env=env)))
         watchdog = budget * float(getattr(mod, "WATCHDOG_FACTOR", 4)) + 300
         for s, out, log, p in procs:
             left = max(5.0, t0 + watchdog - time.time())
@@ -331,7 +343,7 @@ def main(argv=None):
             finally:
                 log.close()
             if rc != 0 or not os.path.exists(out):
-                tail = open(os.path.join(tmpd, f"shard{s}.log")).read()[-1500:]
+                tail = open(os.path.join(tmpd, f"shard{s}.log")).read()[-1500:]  # 'shardcore.log' for the core shard
                 crashed = rc < 0 or "Fatal Python error" in tail
                 if crashed and getattr(mod, "CRASH_IS_VIOLATION", True):
                     mon.violations.append({"property": pid, "clause": "process-crash", "detail": {"rc": rc, "log_tail": tail}, "case": {"shard": s}, "tier": tier, "seed": seed, "shard": s})
@@ -340,6 +352,9 @@ def main(argv=None):
                 continue
             with open(out) as fh:
                 j = json.load(fh)
+            if s == core_shard:
+                mon.extra(core_shard_quick_workload={"cases": j["n_cases"], "invariant_evaluations": j["evaluations"],
+                                                     "violations": len(j["violations"]), "inconclusive": j.get("inconclusive", [])[:3]})
             if s == bc_shard:
                 mon.extra(numba_boundscheck_shard={"cases": j["n_cases"], "invariant_evaluations": j["evaluations"],
                                                    "violations": len(j["violations"])})
